@@ -129,6 +129,9 @@ class Rs200(protocol_base.IrProtocolBase):
 
         code += [self._bursts[0][1]]
 
+        if len(code) % 2:
+            raise DecodeError('invalid burst pair')
+
         decoded = []
         for i in range(0, len(code), 2):
             mark = code[i]
